@@ -19,13 +19,17 @@ RULE = ("programs: corpus programs (valid and invalid, many importing core), the
         "imports, shared types, consts, comptime blocks, generics; some with a type error in one file); each built 3x by the CLI and 3x by the probe "
         "pipeline with permuted file order; non-trivial = program with >= 2 files or >= 5 globals; distinct = distinct (file count, accepted?, uses core) tuples "
         "together with the program text hash")
-ASSUME = ["timing fragments of the CLI output ('parsed in 0.00s', 'in 0.02s') are masked before comparison",
+ASSUME = ["timing fragments of the CLI output ('parsed in 0.00s', 'in 0.02s') and the absolute path of the build directory are masked before comparison",
           "for permuted file orders the diagnostics are compared as a sorted multiset and additionally as a sequence (a pure reordering is reported under its own key)"]
 
 TIME_RE = re.compile(r"\d+\.\d+s")
 
 
-def mask(out):
+def mask(out, run_dir=None):
+    """timing fragments, and the absolute path of the directory this particular build ran in (it appears in some diagnostics,
+    e.g. `/…/cli0/io.capy` couldn't be found), are not part of the compared output"""
+    if run_dir:
+        out = out.replace(run_dir, "<dir>")
     return TIME_RE.sub("<t>s", out)
 
 
@@ -69,7 +73,7 @@ def one(job):
         dk = os.path.join(d, f"cli{k}")
         c = R.compile_capy(dk, files)
         h = hashlib.sha256(open(c.obj, "rb").read()).hexdigest() if c.obj else None
-        runs.append((c, h, mask(c.out)))
+        runs.append((c, h, mask(c.out, dk)))
     pipes = []
     dp = os.path.join(d, "probe")
     os.makedirs(dp, exist_ok=True)
